@@ -32,6 +32,9 @@ fn build_from_parsed(
     parsed: ParseResult,
     common_context: &CommonContext,
 ) -> Result<BuildResult, Error> {
+    #[cfg(feature = "verif")]
+    crate::verif::emit("\"ev\":\"begin\"".to_string());
+
     let passed_0 = pass0(parsed, common_context)?;
 
     let passed_1 = pass1(passed_0, common_context)?;
@@ -39,6 +42,19 @@ fn build_from_parsed(
     let passed_2 = pass2(passed_1, common_context)?;
 
     let device = common_context.get_device();
+
+    #[cfg(feature = "verif")]
+    crate::verif::emit(format!(
+        "\"ev\":\"limits\",\"code_len\":{},\"eeprom_len\":{},\"ram_filling\":{},\"flash\":{},\"eeprom\":{},\"ram\":{},\"code\":\"{}\",\"eeprom_image\":\"{}\"",
+        passed_2.code.len(),
+        passed_2.eeprom.len(),
+        passed_2.ram_filling,
+        device.flash_size,
+        device.eeprom_size,
+        device.ram_size,
+        if passed_2.code.len() <= 65536 { crate::verif::hex(&passed_2.code) } else { String::new() },
+        if passed_2.eeprom.len() <= 65536 { crate::verif::hex(&passed_2.eeprom) } else { String::new() }
+    ));
 
     if passed_2.code.len() as u32 > device.flash_size * 2 {
         bail!(
